@@ -16,6 +16,7 @@ def run(tier, seed, replay=None):
     if not binary:
         return chk.finish(rule='harness build failed')
     scripts = gen_scripts(chk, tier, zoo, paths, profiles=('fill', 'fill', 'mixed', 'mem'))
+    scripts = maybe_replay(chk, replay, scripts, zoo, paths)
     traces = run_histories(chk, binary, [{k: v for k, v in s.items() if not k.startswith('_')} for s in scripts])
     nfind = oracle_pass(chk, scripts, traces, ('C03',))
     stats, bad, guard_fail = ta_correspondence(chk, traces, scripts=scripts, guards=True)
